@@ -62,16 +62,45 @@ def rule_r1(ck, prog, cls='trace::TraceState', field='kv_properties_', rule='C14
     return cnt
 
 
-def _valid_edge(name, want):
+def _valid_edge(name, want, var_id=None):
+    """edge on which validator `name` returned `want`; with var_id, only when it was applied to that variable"""
     def pred(a, b, lab):
         if not lab or not isinstance(lab[0], int):
             return False
         core, pol = norm_cond(lab[1], lab[0])
         cn = lab[1].nodes[core]
         if cn['k'] == 'call' and strip_targs(cn.get('c', '')).endswith(name):
+            if var_id is not None and not any(lab[1].nodes[j]['k'] == 'ref' and lab[1].nodes[j].get('id') == var_id
+                                              for a_ in cn.get('args', []) if a_ is not None and a_ >= 0 for j in lab[1].subtree(a_)):
+                return False
             return (lab[2] if pol else not lab[2]) is want
         return False
     return pred
+
+
+def rule_r2_validated_is_stored(ck, prog, cls='trace::TraceState', rule='C14.R2', names=('Set', 'FromHeader')):
+    """what is stored is what was validated: every AddEntry(k, v) of a caller-supplied or parsed member is behind IsValidKey applied
+    to that very k and IsValidValue applied to that very v"""
+    for name in names:
+        f = prog.function(cls + '::' + name)
+        g = Graph(prog, f, inline=None, sync_lambdas=False)
+        adds = [p for p in g.calls('KeyValueProperties::AddEntry') if p.ctx is g.root_ctx and len(p.n.get('args', [])) == 2]
+        bad = None
+        n_ok = 0
+        for p in adds:
+            k, v = strip_casts(f, p.n['args'][0]), strip_casts(f, p.n['args'][1])
+            if k['k'] != 'ref' or v['k'] != 'ref':
+                continue
+            if not g.must_pass_edge(p, _valid_edge('IsValidKey', True, k['id'])):
+                bad = (p, 'IsValidKey', k['name'])
+            elif not g.must_pass_edge(p, _valid_edge('IsValidValue', True, v['id'])):
+                bad = (p, 'IsValidValue', v['name'])
+            else:
+                n_ok += 1
+        ck.verdict(bad is None and n_ok > 0, rule, f, '%s:validated-is-stored' % name, (bad[0] if bad else (adds[0] if adds else None)).n if (bad or adds) else None,
+                   'the stored key and value are the ones IsValidKey / IsValidValue accepted' if bad is None and n_ok else
+                   ('%s stores `%s` without %s having been applied to it (the validator is applied to something else): an invalid member enters the list and is re-injected' % (name, bad[2], bad[1])
+                    if bad else 'no insertion of a validated member found'))
 
 
 def rule_r2(ck, prog, cls='trace::TraceState', rule='C14.R2'):
@@ -279,6 +308,33 @@ def rule_r3_update(ck, prog, cls='trace::TraceState', rule='C14.R3', api='KeyVal
                path=None if pth is None else g.describe_path(pth))
 
 
+def rule_r5_tokenizer(ck, prog, rule='C14.R5'):
+    """the tokenizer hands out exactly the parts of the (trimmed) member left and right of the separator: the key and value
+    out-parameters are assigned substr(...) of the member (or the default), with no further transformation - trimming the parts
+    repairs members such as `k1 =v1` that have to be rejected, and strips blanks a value may legitimately start with"""
+    fs = [x for x in prog.functions('common::KeyValueStringTokenizer::next') if len(x.params) == 3]
+    if not fs:
+        raise AnalysisBroken('KeyValueStringTokenizer::next vanished')
+    f = fs[0]
+    outs = {f.params[1]['id']: f.params[1]['name'], f.params[2]['id']: f.params[2]['name']}
+    bad = None
+    n = 0
+    for nd in f.nodes:
+        if nd['k'] == 'call' and nd.get('op') == '=' and nd.get('obj') is not None and strip_casts(f, nd['obj']).get('id') in outs and nd.get('args'):
+            n += 1
+            for j in f.subtree(nd['args'][0]):
+                m = f.nodes[j]
+                if m['k'] == 'call':
+                    nm = strip_targs(m.get('c', '')).rsplit('::', 1)[-1]
+                    if nm not in ('substr', 'GetDefaultKeyOrValue', 'string_view', 'data', 'size', 'length'):
+                        bad = (nd, outs[strip_casts(f, nd['obj'])['id']], strip_targs(m.get('c', '')).rsplit('::', 2)[-2:])
+    if n < 2:
+        raise AnalysisBroken('KeyValueStringTokenizer::next: assignments to the key/value out-parameters not found')
+    ck.verdict(bad is None, rule, f, 'tokenizer-parts-untransformed', bad[0] if bad else None,
+               'key and value are substr(...) of the member' if bad is None else
+               'the tokenizer passes the %s part through %s before handing it out: `k1 =v1` is repaired instead of rejected, and leading blanks of a value are lost on the way header -> state -> header' % (bad[1], '::'.join(bad[2])))
+
+
 def rule_r4(ck, prog, rule='C14.R4'):
     f = prog.function('common::KeyValueProperties::AddEntry')
     g = Graph(prog, f, inline=None, sync_lambdas=False)
@@ -448,10 +504,10 @@ def rule_r7(ck, prog, rule='C14.R7'):
 
 def run(ck, prog):
     ck.doc('C14.R1', 'no member of TraceState modifies the object it is called on', 5)
-    ck.doc('C14.R2', 'validity gates dominate construction; invalid => default/empty; at most 32 members when parsing', 9)
+    ck.doc('C14.R2', 'validity gates dominate construction; invalid => default/empty; at most 32 members when parsing; what is stored is what was validated', 11)
     ck.doc('C14.R3', 'copy excludes the updated/deleted key; an update of an existing key is never refused; Delete allocates enough', 4)
     ck.doc('C14.R4', 'AddEntry bounded by the allocation; new key only while size < 32', 2)
-    ck.doc('C14.R5', 'key lookup compares whole keys', 1)
+    ck.doc('C14.R5', 'key lookup compares whole keys; the tokenizer hands out the member parts untransformed', 2)
     ck.doc('C14.R6', 'Trim removes exactly the whitespace class on both edges', 2)
     ck.doc('C14.R7', 'the validators\' regular expressions denote the W3C key/value grammar; true iff a whole-string match', 0)
     ck.doc('C09.R7', '(shared rule) no function-local static of the parse/validate functions is modified after initialisation', 1)
@@ -459,9 +515,11 @@ def run(ck, prog):
         rule_r1(ck, prog, cls='canary::c14::BadState', field='kv_')
     rule_r1(ck, prog)
     rule_r2(ck, prog)
+    rule_r2_validated_is_stored(ck, prog)
     rule_r3(ck, prog)
     rule_r4(ck, prog)
     rule_r5(ck, prog)
+    rule_r5_tokenizer(ck, prog)
     rule_r6(ck, prog)
     if not rule_r7(ck, prog):
         ck.note('C14.R7 not applicable in this configuration: the regex validators are not compiled (OPENTELEMETRY_HAVE_WORKING_REGEX=0)')
